@@ -24,6 +24,7 @@ enum Op {
 struct Sched {
     turn: Option<usize>,
     pos: Vec<u32>, // last yield id reached; 9 = finished; 8 = not started
+    opi: Vec<usize>, // index of the operation each worker is executing
 }
 
 thread_local! { static TID: Cell<Option<usize>> = Cell::new(None); }
@@ -54,6 +55,7 @@ fn run_one(
         let mut st = ctl.m.lock().unwrap();
         st.turn = None;
         st.pos = vec![8; n];
+        st.opi = vec![0; n];
     }
     let mut handles = vec![];
     for t in 0..n {
@@ -71,7 +73,8 @@ fn run_one(
             }
             let ctx = Context { uid: 0, gid: 0, pid: 1 };
             let mut res: Vec<i64> = vec![];
-            for op in prog {
+            for (k, op) in prog.into_iter().enumerate() {
+                ctl.m.lock().unwrap().opi[t] = k;
                 match op {
                     Op::L => match fs.lookup(&ctx, 1, &name) {
                         Ok(e) => res.push(e.inode as i64),
@@ -95,9 +98,26 @@ fn run_one(
     let mut trace = vec![];
     let mut enabled_at = vec![];
     loop {
+        // Runnable workers.  While a forget is paused between its load and its compare-exchange
+        // (yield point 5) it holds the inode map write lock: only lock-free continuations may run,
+        // i.e. a lookup about to load (1), or about to compare-exchange (2) whose worker does not
+        // go on to another lookup (whose prologue takes the read lock) when the exchange succeeds.
         let unfinished: Vec<usize> = {
             let st = ctl.m.lock().unwrap();
-            (0..n).filter(|t| st.pos[*t] != 9).collect()
+            let locked = (0..n).any(|t| st.pos[t] == 5);
+            (0..n)
+                .filter(|t| st.pos[*t] != 9)
+                .filter(|t| {
+                    if !locked || st.pos[*t] == 5 || st.pos[*t] == 1 {
+                        return true;
+                    }
+                    if st.pos[*t] == 2 {
+                        let next = progs[*t].get(st.opi[*t] + 1);
+                        return !matches!(next, Some(Op::L));
+                    }
+                    false
+                })
+                .collect()
         };
         if unfinished.is_empty() {
             break;
@@ -142,7 +162,7 @@ fn main() {
     let ino = fs.lookup(&ctx, 1, &names[0]).expect("lookup").inode;
     fs.forget(&ctx, ino, 1);
 
-    let ctl = Arc::new(Ctl { m: Mutex::new(Sched { turn: None, pos: vec![] }), cv: Condvar::new() });
+    let ctl = Arc::new(Ctl { m: Mutex::new(Sched { turn: None, pos: vec![], opi: vec![] }), cv: Condvar::new() });
     {
         let ctl = ctl.clone();
         verif_hooks::install_scheduler(Some(Arc::new(move |id: u32| {
